@@ -89,7 +89,42 @@ def _group_loops(p):
   """the per-group loop: its iterations fill a dict of ranks in a nested loop and hand it to a local function"""
   loops = [e for e in p.events if e[0] == 'loop']
   return [e for e in loops if any(x[0] == 'loop' and any(y[0] == 'dict-store' for qq, _ in x[3] for y in qq.events[x[5]:]) for q, _ in e[3] for x in q.events[e[5]:])
-          and any(x[0] == 'call' and not str(x[1]).startswith('.') and any(isinstance(a, DictObj) for a in x[5]) for q, _ in e[3] for x in q.events[e[5]:])]
+          and any((x[0] == 'call' and not str(x[1]).startswith('.') and any(isinstance(a, DictObj) for a in x[5])) or _inline_writeout(x) is not None
+                  for q, _ in e[3] for x in q.events[e[5]:])]
+
+
+def _inline_writeout(x):
+  """loop event x copies cells of a dict into some other object (`tree[..][axis] = ranks[key]` for key in group): the
+  write-out of a group iteration written in place instead of as a helper call.  Returns (cell's dict symbol) or None"""
+  if x[0] != 'loop':
+    return None
+  for q, _ in x[3]:
+    for e in q.events[x[5]:]:
+      if e[0] == 'obj-store' and len(e) > 4 and isinstance(e[4], cell):
+        return e[4].args[0]
+      if e[0] == 'dict-store' and isinstance(e[3], cell) and not str(e[3].args[0]).startswith(f'dict{e[1]}v'):
+        return e[3].args[0]          # a cell of ANOTHER dict copied into this one
+  return None
+
+
+def _pseudo_call(x):
+  """a call-shaped event for an inline write-out loop: (ranks dict, iterable) as arguments, facts and node of the loop entry"""
+  dsym = _inline_writeout(x)
+  head, pre = x[2], x[6]
+  ranks = None
+  for st_ in (pre, head):
+    for dd in st_.dicts():
+      if dd.sym() == dsym and ranks is None:
+        ranks = dd
+  if ranks is None:
+    for dd in pre.dicts():
+      if str(dd.sym()).rsplit('v', 1)[0] == str(dsym).rsplit('v', 1)[0]:
+        ranks = dd
+  if ranks is None:
+    return None
+  it = x[4]
+  args = [it, ranks] if isinstance(it, sp.Basic) else [ranks]
+  return ('call', '<inline write-out>', [str(a) for a in args], x[1], pre.facts.copy(), args)
 
 
 def _last_key(e):
@@ -106,6 +141,8 @@ def group_iteration(ctx, fi, ip, gev):
   for q, _ in gpaths:
     evs = q.events[gn0:]
     calls = [e for e in evs if e[0] == 'call' and not str(e[1]).startswith('.') and any(isinstance(a, DictObj) for a in e[5])]
+    if not calls:
+      calls = [c_ for c_ in (_pseudo_call(x) for x in evs if _inline_writeout(x) is not None) if c_ is not None]
     if not calls:
       ctx.ob('C17.R2', fi.short, 'write-out receives the ranks', False, 'no call in the per-group iteration receives the dict of ranks', ctx.loc(fi, gnode))
       continue
